@@ -32,7 +32,7 @@ func init() {
 		Rule: "leg bloom: PRNG log sets (0-6 receipts x 0-9 logs, 20-byte addresses and 0-4 32-byte topics incl. all-zero, all-ones, leading-zero and small-integer items, repeated topics, 0-99 data bytes) through CreateBloom/LogsBloom; non-trivial = >=2 logs, distinct by content. " +
 			"leg query: one case per query; per batch one long chain (sections of 2048/2056/4096 blocks, one or two of them: 2300-4400 blocks, sparse log traffic, dense within 8 blocks of section edges) and two short chains (263-650 blocks), on three fork schedules, built by core.GenerateChain with transactions into 4 logger contracts (LOG0-4), a 5-log burst contract, a relay (inner call + own log + inner call, also with a rolled-back inner log), a log-then-INVALID contract, the shared nested-call library (CALL/CALLCODE/DELEGATECALL/STATICCALL into loggers) and out-of-gas logs, topics from a pool of 7 (zero hash, all-ones, padded address, leading zeros); " +
 			"imported into a real BlockChain with the real aqua.NewBloomIndexer at section sizes 2048/2056/4096 and 8/16/24/32/64 (thorough +40/128; while Generator.Bitset refuses bit numbers >= section size these short-section chains record that defect and run with an index that stays empty) and queried at 3 import cuts (0 sections, one block short of a confirmation, all the 256-confirmation rule allows), after a shallow reorg and (every long / every 4th short chain) after a reorg forking below the indexed boundary; thorough adds leg service: a full in-process node (node.New + aqua.New, sections of 4096, 1 and 2 indexed sections) queried through its AquaApiBackend and the RPC method aqua_getLogs; " +
-			"per state ~30 forced templates (open ends, begin>end, beyond head, +-2 around the indexed boundary, section edges, criteria derived from real logs: exact topics, one position too long, swapped positions, wildcards, alternatives with never-emitted values, address lists) plus 40 (thorough 80) PRNG queries, each through Filter.Logs, PublicFilterAPI.GetLogs, its JSON criteria decoder, or NewFilter+GetFilterLogs; retrieval served by 1-3 Multiplex threads, batch 1/2/16, optionally withholding the first delivery of every bit vector; " +
+			"per state ~30 forced templates (open ends, begin>end, beyond head, +-2 around the indexed boundary, section edges, criteria derived from real logs: exact topics, one position too long, swapped positions, wildcards, alternatives with never-emitted values, a JSON null first / in the middle / last among the alternatives of a position, address lists) plus 40 (thorough 80) PRNG queries, each through Filter.Logs, PublicFilterAPI.GetLogs, its JSON criteria decoder, or NewFilter+GetFilterLogs; retrieval served by 1-3 Multiplex threads, batch 1/2/16, optionally withholding the first delivery of every bit vector; " +
 			"plus per batch 1 (thorough 6) chain with sections of 32/64/128 in state deep_reorg_mid_section: a database wrapper holds the indexer's read of the canonical hash of a chosen block inside processSection while a heavier branch forking below it is imported, both orders of reorg-event handling and read resumption, then spare head blocks, index check and queries incl. forced ones for branch logs in the rewritten span; " +
 			"non-trivial = query with a non-empty result, distinct by (config, resolved range, criteria, result size, end block hash). " +
 			"leg matcher: PRNG blooms (item density 1/2..1/100, 0-300 noise bits) in 1-6 sections of 8..4096 blocks, vectors from the real Generator or a reference transposition, filters of 0-4 groups x 0-3 clauses incl. nil clauses and never-occurring items, 3 ranges per matcher (reused), direct or Multiplex retrieval with batch 1-16, 1-4 threads, optional withheld deliveries; non-trivial = session that selects a proper non-empty subset.",
@@ -61,7 +61,7 @@ func init() {
 				"queries": 5000, "queries_with_results": 1500, "path_indexed": 300, "path_unindexed": 1000, "path_straddle": 500, "path_empty_range": 100,
 				"via_filter": 1000, "via_api": 1000, "via_api_json": 1000, "via_api_installed": 1000,
 				"range_open_begin": 100, "range_open_end": 500, "range_end_beyond_head": 100, "range_begin_after_end": 100,
-				"criteria_with_wildcard_position": 300, "criteria_with_alternatives": 300, "criteria_with_address_list": 300,
+				"criteria_null_inside_alternatives": 200, "criteria_null_not_last": 100, "criteria_with_wildcard_position": 300, "criteria_with_alternatives": 300, "criteria_with_address_list": 300,
 				"block_passes_bloom_but_no_log_matches": 100, "log_excluded_only_by_criteria_length": 100, "log_excluded_only_by_topic_position": 100,
 				"state_no_section_indexed": 30, "state_sections_indexed": 30, "index_sections_verified": 16,
 				"reorg_shallow_adopted": 40, "reorg_deep_invalidated_sections": 14, "reorg_landed_mid_section": 8,
@@ -83,7 +83,7 @@ func init() {
 		AnchorFiles: []string{"/core/types/bloom9.go", "/aqua/filters/", "/core/bloombits/", "/aqua/bloombits.go", "/core/chain_indexer.go"},
 		Assumptions: []string{
 			"reference bloom = yellow-paper M3:2048 (low 11 bits of byte pairs 0-1, 2-3, 4-5 of Keccak-256, bit 0 = least significant bit of the last byte) with x/crypto legacy Keccak, self-tested against the membership vectors of core/types/bloom9_test.go and hand-derived bit positions of the empty item",
-			"filter semantics from the JSON-RPC specification of eth_getLogs: address list = OR, empty = any; topics positional, empty position = wildcard, several values = OR; criteria with more positions than a log has topics do not match it; range ends: -1/latest = current head, end beyond the head stops at the head, begin > end is empty",
+			"filter semantics from the JSON-RPC specification of eth_getLogs: address list = OR, empty = any; topics positional, empty position = wildcard, several values = OR, a null among them = anything (the position is a wildcard wherever the null stands, as api.go documents: \"null component, match all\"); criteria with more positions than a log has topics do not match it; range ends: -1/latest = current head, end beyond the head stops at the head, begin > end is empty",
 			"expected logs (address, topics, data, block number, block hash, transaction hash and index, log index counted over the block) come from the receipts core.GenerateChain returned and the generated blocks, never from the database under test; the canonical chain is the generated path to the node's current head",
 			"queries run at rest: after InsertChain returned and the real indexer reached the section count its 256-confirmation rule allows for that head (polled; not reaching it within 10 min is inconclusive, never a verdict)",
 			"the filters.Backend is the node's AquaApiBackend/startBloomHandlers with the section size as a parameter (params.BloomBitsBlocks is a constant 4096); it reads headers from the real BlockChain, receipts and bit vectors from the real database and takes no part in deciding matches",
